@@ -8,7 +8,9 @@ geometry to the slots, apply the kernel, convert the edges, store), Trace_EventM
    thorough: <= 6 events, grids up to 3x2; empty bins, uneven bins, at most one unreferenced slot,
    every memory order of the bins for <= 4 bins, four characteristic orders for 6 bins):
    ResultPerEvent, MembershipPreserved, OrderPreserved, WeightsUntouched, EdgesSameFunction,
-   InputUntouched; seven negative controls must be rejected.
+   InputUntouched, and Repeatable (a second call on the same object - action Recall - gives the same
+   result; quick: on the <= 3-event model of the coverage run, thorough: on the full model); eight
+   negative controls must be rejected.
 2. spec -> code (M1): every layout TLC reaches (printed by the Seal action) becomes a real binned
    DataArray (1-d pixel grid, pixel x coordinate-bin grid with a bin-edge coordinate, 2-d pixel
    grid; event coordinate float64 / float32 / int64 / int32; geometry per pixel given as positions,
@@ -27,6 +29,23 @@ geometry to the slots, apply the kernel, convert the edges, store), Trace_EventM
    unreferenced slots) judged by the same trace spec.
 A dtype the dense conversion itself refuses (int32 with energy targets) is recorded as
 "unsupported", not as a violation.
+4. Hardening round (HARDENING.md; three of four cases carry options drawn by lib_convert.event_opts):
+   * targets (8): time_at_sample (pulse_time per event or per run), hkl_vec, l, Qz from tof / wavelength;
+   * units per operand (5): event coordinate in us / ns / ms (nm, ueV / eV, 1/nm), the bin-edge coordinate in
+     another unit than the events, positions / L1 / L2 / Ltotal in m / mm / cm independently, angle in deg,
+     incident / final energy in eV; the dense reference gets the same numbers in the same units;
+   * dtypes (1): geometry float32 with float64 / int events and vice versa, weights float32 / float64
+     independent of the event coordinate, bin edges float32 / int64;
+   * layouts (2, 7, 8): per-pixel (2-d) bin edges, the grid as the interior of a larger binned array
+     (sliced view: strided begin / end, many unreferenced slots), data stored as [origin, spectrum],
+     a single pixel as a 0-d binned array, the data array inside a Dataset, coordinates inserted in a
+     random order;
+   * history (6; EventMode.tla action Recall / invariant Repeatable): the judged call comes after a
+     call with the same arguments or with another target on the same object, or another object of the
+     same shape is converted before the result is looked at; at the end a sample of the cases is
+     executed again in the main process in reverse order, judged again and compared with the first run;
+   * a result that is not a binned array over the same grid with a consistent buffer is the verdict
+     result_malformed, not a crash (11).
 """
 
 from __future__ import annotations
@@ -46,7 +65,8 @@ RULE = ('layout = (grid kind, R, C, N, begin/end per bin); event coordinate valu
 
 NEG = ['memory_order:ResultPerEvent', 'column_geometry:ResultPerEvent', 'inplace:InputUntouched',
        'weights_by_memory_rank:WeightsUntouched', 'reversed_bins:OrderPreserved',
-       'edges_first_pixel:EdgesSameFunction', 'shifted_slices:MembershipPreserved']
+       'edges_first_pixel:EdgesSameFunction', 'shifted_slices:MembershipPreserved',
+       'consumed_work_buffer:Repeatable']
 
 
 def _nproc():
@@ -74,7 +94,7 @@ def _run_negs(ctx, errs):
             r = L.spaced_tlc(ctx, 'conv/MC_EventMode.tla', 'Cov_EventMode.cfg', workers=2, coverage=True, timeout=600,
                         count=False)
             require_ok(ctx, r, 'EventMode coverage run')
-            require_actions(r, ['Place', 'Seal', 'Broadcast', 'Apply', 'Store'])
+            require_actions(r, ['Place', 'Seal', 'Broadcast', 'Apply', 'Store', 'Recall'])
         except Exception as e:  # noqa: BLE001
             errs.append(e if isinstance(e, MachineryError) else MachineryError(repr(e)))
 
@@ -100,20 +120,33 @@ def _random_layout(rng):
         rng.shuffle(order)
     bg, en = [0] * B, [0] * B
     cur = 0
+    # a third of the layouts tile the buffer without gaps (in row-major, column-major or shuffled order):
+    # "contiguous buffer" is the usual precondition of a fast path
+    dense_buffer = rng.random() < 0.33
     for b in order:
-        cur += rng.choice([0, 0, 0, 1, 3])
+        cur += 0 if dense_buffer else rng.choice([0, 0, 0, 1, 3])
         size = rng.choice([0, 0, 1, 1, 2, 3, 5, 9])
         if cur + size > 60:
             size = 0
         bg[b], en[b] = cur, cur + size
         cur += size
-    N = cur + rng.choice([0, 0, 2])
+    N = cur + (0 if dense_buffer else rng.choice([0, 0, 2]))
     return {'kind': kind, 'R': R, 'C': C, 'N': N, 'bg': bg, 'en': en}
 
 
 def _key(meta, clause):
+    # the plain form keeps the historical keys; hardening options that change the shape of the call are named
+    flags = meta.get('layout_flags') or []
+    extra = ('; ' + '+'.join(flags)) if flags else ''
+    u = meta.get('units') or {}
+    canon = {'event': None, 'edges': None, 'lengths': ['m', 'm', 'm'], 'angle': 'rad', 'inelastic': 'meV'}
+    var_o = meta['variant'].split('->')[0]
+    canon['event'] = L.ORIGIN_UNIT[var_o]
+    canon['edges'] = L.ORIGIN_UNIT[var_o] if meta['kind'] == 'pt' else None
+    if u and any(u.get(k) != v for k, v in canon.items()):
+        extra += '; operands in other units'
     return (f"event-mode convert({meta['variant']}; event dtype {meta['dtype']}; geometry from {meta['geom']}; "
-            f"grid {meta['kind']}): {clause}")
+            f"grid {meta['kind']}{extra}): {clause}")
 
 
 def _selftest(ctx, events, rejected):
@@ -131,38 +164,41 @@ def _selftest(ctx, events, rejected):
     sl = copy.deepcopy(good[::max(1, len(good) // 60)][:60])
     expect = {}
 
+    def after(clause, e):       # Trace_EventMode names the history of a repeated call in the clause
+        return clause if e['hist'] == 'first' else f"{clause}_{e['hist']}"
+
     def nonempty(e, n=1):
         return [i for i, b in enumerate(e['bins']) if len(b['x']) >= n]
 
     e = sl[0]                       # two events of one bin swapped in the result
     i = nonempty(e, 2)[0]
     e['bins'][i]['r'][0], e['bins'][i]['r'][1] = e['bins'][i]['r'][1], e['bins'][i]['r'][0]
-    expect[e['tid']] = 'event_value_differs_from_dense'
+    expect[e['tid']] = after('event_value_differs_from_dense', e)
     e = sl[1]                       # an event moved to another bin
     i, j = nonempty(e)[:2]
     for col in ('r', 'w', 'v', 'x'):
         e['bins'][j][col].append(e['bins'][i][col].pop())
-    expect[e['tid']] = 'bin_membership_count'
+    expect[e['tid']] = after('bin_membership_count', e)
     e = sl[2]                       # weights reordered
     i = nonempty(e, 2)[0]
     e['bins'][i]['w'] = e['bins'][i]['w'][::-1]
-    expect[e['tid']] = 'weights'
+    expect[e['tid']] = after('weights', e)
     e = sl[3]                       # order of a bin reversed consistently
     i = nonempty(e, 2)[0]
     for col in ('r', 'w', 'v', 'x'):
         e['bins'][i][col] = e['bins'][i][col][::-1]
-    expect[e['tid']] = 'event_order'
+    expect[e['tid']] = after('event_order', e)
     e = sl[4]
     e['same']['input'] = False
-    expect[e['tid']] = 'input_modified'
+    expect[e['tid']] = after('input_modified', e)
     e = sl[5]
     e['same']['masks'] = False
-    expect[e['tid']] = 'masks_changed'
+    expect[e['tid']] = after('masks_changed', e)
     pt = [x for x in sl[6:] if x['kind'] == 'pt' and x['R'] >= 2]
     if pt:                          # edges of two pixels exchanged
         e = pt[0]
         e['edges'][0], e['edges'][1] = e['edges'][1], e['edges'][0]
-        expect[e['tid']] = 'edge_value_differs_from_dense'
+        expect[e['tid']] = after('edge_value_differs_from_dense', e)
     tf = ctx.tmp / 'c06-selftest.ndjson'
     write_ndjson(tf, sl)
     tr = L.spaced_tlc(ctx, 'conv/Trace_EventMode.tla', workers=1, env={'TRACE_FILE': str(tf)}, timeout=600, count=False)
@@ -186,6 +222,12 @@ def run(ctx):
                'are outside the quantifier ("supported dtypes")')
     ctx.assume('events that belong to no bin (unreferenced slots of the buffer) are not events of the data; the '
                'layout of the output buffer is free')
+    ctx.assume('a 2-d pixel grid whose data and per-pixel geometry are stored with different dimension orders (e.g. '
+               'after da.transpose()) is refused by scipp binned arithmetic with a VariableError although the dense '
+               'conversion works: a refusal, not a wrong answer - such layouts are not generated; a [spectrum, origin] '
+               'grid stored as [origin, spectrum] converts and is judged')
+    ctx.assume('history: a call on an object that was converted before, or whose result is looked at after another '
+               'call, must satisfy the property like any other call (the property quantifies over inputs only)')
 
     # ---- 1. design: TLC exhaustive (also the source of the M1 layouts) + negative controls
     errs = []
@@ -211,7 +253,12 @@ def run(ctx):
     if not ctx.thorough:
         small = [x for x in lays if x['R'] * x['C'] <= 2]
         big = [x for x in lays if x['R'] * x['C'] > 2]
-        lays = small + rng.sample(big, min(len(big), 2600 - min(len(small), 600)))
+        # the layouts whose buffer is contiguous in column-major order (what a transposed array looks like) are
+        # rare in a uniform sample and are the ones a positional fast path gets wrong: keep all of them
+        colmajor = [x for x in big if x['kind'] == 'pt' and L._column_major_contiguous(x)]
+        rest = [x for x in big if not (x['kind'] == 'pt' and L._column_major_contiguous(x))]
+        colmajor = rng.sample(colmajor, min(len(colmajor), 200))
+        lays = small + colmajor + rng.sample(rest, min(len(rest), 2600 - min(len(small), 600) - len(colmajor)))
         rng.shuffle(lays)
     else:
         rng.shuffle(lays)   # so that the rotation of variants is not correlated with the enumeration order
@@ -223,8 +270,12 @@ def run(ctx):
     cases = []
     for i, lay in enumerate(lays):
         j = i + off
-        cases.append({'tid': i + 1, 'lay': lay, 'var': list(L.EVENT_VARIANTS[j % nv]),
-                      'dtype': L.EVENT_DTYPES[(j // nv) % nd], 'geom': L.GEOM_MODES[(j // (nv * nd)) % len(L.GEOM_MODES)]})
+        var, dtype = list(L.EVENT_VARIANTS[j % nv]), L.EVENT_DTYPES[(j // nv) % nd]
+        geom = L.GEOM_MODES[(j // (nv * nd)) % len(L.GEOM_MODES)]
+        # hardening options (units per operand, dtypes of geometry / weights / edges, views, transposed
+        # storage, 2-d edges, 0-d, Dataset, call history); every fourth case keeps the plain form
+        opts = L.event_opts(rng, lay, var, dtype, geom) if i % 4 else None
+        cases.append({'tid': i + 1, 'lay': lay, 'var': var, 'dtype': dtype, 'geom': geom, 'opts': opts})
 
     # ---- 2./3. run the real conversions, record, let TLC judge
     nproc = _nproc()
@@ -261,6 +312,27 @@ def run(ctx):
         raise MachineryError(f'too many unsupported cases: {unsupported}')
     for e, m in list(zip(events, metas))[:2]:
         ctx.sample({'event': e, 'meta': m})
+
+    # ---- 3b. replay pass (HARDENING item 6): a sample of the cases again at the end of the run, in this
+    # process, in reverse order and without the history calls; same verdicts, same projected result
+    n_first = len(cases)
+    pick = sorted(rng.sample(range(n_first), min(n_first, 600 if ctx.thorough else 150)), reverse=True)
+    replay = [dict(cases[i], tid=n_first + k + 1, hist='replay') for k, i in enumerate(pick)]
+    differs = 0
+    for (ev, meta), c, i in zip(L.run_event_cases((replay, ctx.seed)), replay, pick):
+        if 'harness_error' in ev:
+            raise MachineryError(f'harness error on replay of case {c}: {ev["harness_error"]}')
+        events.append(ev)
+        metas.append(meta)
+        cases.append(c)
+        ctx.case(nontrivial_id=None)
+        a = {k: v for k, v in events[i].items() if k not in ('tid', 'hist')}
+        b = {k: v for k, v in ev.items() if k not in ('tid', 'hist')}
+        if a != b:
+            differs += 1
+            ctx.violation(_key(meta, 'the result depends on the call history (replay at the end of the run differs)'),
+                          {'case': c, 'first': events[i], 'replay': ev, 'seed': ctx.seed})
+    ctx.extra['replayed_in_another_order'] = len(replay)
 
     per = 4000
     parts = [events[i:i + per] for i in range(0, len(events), per)]
@@ -303,12 +375,21 @@ def run(ctx):
         for _, _line, tid, clause in rej:
             rejected.add(tid)
             ev, meta, c = events[tid - 1], metas[tid - 1], cases[tid - 1]
-            if clause == 'layout_not_well_formed':
+            if clause.startswith('layout_not_well_formed'):
                 raise MachineryError(f'harness produced an ill-formed layout: {c}')
             ctx.violation(_key(meta, clause), {
                 'case': c, 'clause': clause, 'meta': meta, 'event': ev, 'seed': ctx.seed,
                 'reproduce': 'harness.lib_convert.run_event_case(case, seed)'})
-    _selftest(ctx, events, rejected)
+    try:
+        _selftest(ctx, events, rejected)
+    except MachineryError:
+        if not (rejected or ctx.violations):
+            raise
+        ctx.extra['trace_selftest'] = 'inconclusive on a tree with violations'
+    except Exception as e:  # noqa: BLE001  (the self-test must never mask verdicts, item 11)
+        if not (rejected or ctx.violations):
+            raise MachineryError(f'trace self-test crashed: {e!r}') from e
+        ctx.extra['trace_selftest'] = 'inconclusive on a tree with violations'
     if not any(e['out'] == 'ok' for e in events):
         raise MachineryError('vacuous run: no conversion returned')
 
